@@ -142,4 +142,12 @@ theorem C05_source (D : Derive) (tg : Target) (md : Modes) (h : D.WF) (v : Int) 
   ⟨by rw [T.next_eq D tg md h v hv]; exact C05_next D h v hv,
    by rw [T.nextBack_eq D tg md h v hv]; exact C05_nextBack D h v hv⟩
 
+/-- walking the translated `next` from the i-th smallest variant reaches the (i+1)-th smallest; `next_back` the (i-1)-th -/
+theorem C05_source_index (D : Derive) (tg : Target) (md : Modes) (h : D.WF) (i : Nat) (hi : i < D.vals.length) :
+    T.next D tg md D.vals[i] = .ok D.vals[i + 1]? ∧
+    T.nextBack D tg md D.vals[i] = .ok (if i = 0 then none else D.vals[i - 1]?) := by
+  have hv := List.getElem_mem hi
+  exact ⟨by rw [T.next_eq D tg md h _ hv]; exact C05_next_index D h i hi,
+         by rw [T.nextBack_eq D tg md h _ hv]; exact C05_nextBack_index D h i hi⟩
+
 end ET.Thm
